@@ -403,6 +403,48 @@ def r9_nodes_immutable(ctx):
         raise AnalysisError('map node store audit found only %d stores' % n)
 
 
+def r10_loaders_keep_every_entry(ctx):
+    """the data rules above read codes.xml, dataele.xml and maps.xml completely; they speak for the running code only if
+    its loaders do the same: in each loader loop the store into the table is executed in EVERY iteration (no skip of
+    an entry that lacks an optional child, no early exit), keyed by the entry's own id"""
+    from ..cfg import skips_in_iteration
+    specs = [('codes', 'ExternalCodes.__init__', 'codeset', 'self.codes', 'id'),
+             ('dataele', 'DataElements.__init__', 'data_ele', 'self.dataele', 'ele_num'),
+             ('map_index', 'map_index.__init__', 'map', None, None)]
+    for mod, qual, tag, table, keyname in specs:
+        fn = ctx.func(mod, qual)
+        g = ctx.cfg(fn)
+        loops = [n for n in ast.walk(fn) if isinstance(n, ast.For) and isinstance(n.iter, ast.Call) and n.iter.args
+                 and A.const(n.iter.args[0]) is not None and str(A.const(n.iter.args[0])).split('/')[-1] == tag
+                 and A.call_target(n.iter)[1] in ('iter', 'iterfind', 'findall')]
+        if len(loops) != 1:
+            raise AnalysisError('%s:%s: loop over <%s> entries not found' % (mod, qual, tag))
+        lp = loops[0]
+
+        def stores(nd):
+            for x in g.walk_exprs(nd):
+                if table and isinstance(x, ast.Subscript) and isinstance(x.ctx, ast.Store) and path_of(x.value) == table:
+                    return True
+                if not table and isinstance(x, ast.Call) and A.call_target(x) in (('self', 'add_map'), ('self.maps', 'append')):
+                    return True
+            return False
+        if not any(stores(nd) for nd in g.nodes):
+            raise AnalysisError('%s:%s: store into the table not found' % (mod, qual))
+        skip = skips_in_iteration(g, lp, stores)
+        yield Ob('%s:%s every <%s> entry is stored' % (mod, qual, tag), skip is None, ctx.floc(fn, lp),
+                 '' if skip is None else 'an iteration can end without storing the entry (through line %s): what the XML defines '
+                 'is then undefined for the validator' % [n.lineno for n in skip if n.lineno][-2:-1])
+        if table:
+            keys = [x for nd in g.nodes for x in g.walk_exprs(nd) if isinstance(x, ast.Subscript) and isinstance(x.ctx, ast.Store) and path_of(x.value) == table]
+            k = keys[0].slice
+            if isinstance(k, ast.Name):
+                defs = [s_.value for s_ in ast.walk(lp) if isinstance(s_, ast.Assign) and path_of(s_.targets[0]) == k.id]
+                k = defs[0] if len(defs) == 1 else k
+            ok = isinstance(k, ast.Call) and A.call_target(k)[1] in ('findtext', 'get') and k.args and A.const(k.args[0]) == keyname \
+                and path_of(k.func.value) == path_of(lp.target)
+            yield Ob('%s:%s entries are keyed by their own %s' % (mod, qual, keyname), ok, ctx.floc(fn, keys[0]), '' if ok else 'key is %s' % norm(keys[0].slice))
+
+
 RULES = [
     Rule('C16.R1', 'index entries name existing well-formed maps; keys unambiguous; packaged', r1_index, floor=30),
     Rule('C16.R2', 'every data_ele / external code reference resolves; dataele lengths sane', r2_refs, floor=20000),
@@ -413,4 +455,5 @@ RULES = [
     Rule('C16.R7', 'both map-location branches of the four loaders open the same file', r7_loader_branches, floor=13),
     Rule('C16.R8', 'model field names = constructor field names; accessor pairs read one name', r8_model_fields, floor=6),
     Rule('C16.R9', 'loaded map nodes are read-only outside their constructors (only parameterless path caches)', r9_nodes_immutable, floor=2),
+    Rule('C16.R10', 'the table loaders store every entry of codes.xml / dataele.xml / maps.xml', r10_loaders_keep_every_entry, floor=3),
 ]
